@@ -536,9 +536,9 @@ Definition eff_ok (t : torrent) (e : eff) : bool :=
 Definition inv (t : torrent) (s : dst) : bool :=
   (zlen (d_have s) =? t_n t) && (zlen (d_cnt s) =? t_n t) && forallb (fun '(_, b) => clean (t_n t) b) (d_peers s).
 
-(* decoded fields fit into the frame they arrived in *)
+(* decoded fields fit into the frame they arrived in; a bit count is unsigned *)
 Definition rawbf_fits (sz : Z) (r : rawbf) : bool :=
-  match r with None => true | Some (_, _, db) => (0 <=? db) && (8 + db <=? sz) end.
+  match r with None => true | Some (L, _, db) => (0 <=? L) && (0 <=? db) && (8 + db <=? sz) end.
 Definition wf_hs (h : hshake) : bool :=
   rawbf_fits (h_size h) (h_bf h) && forallb (fun '(_, r) => rawbf_fits (h_size h) r) (h_rb h).
 Definition wf_event (e : event) : bool :=
